@@ -84,11 +84,15 @@ theorem C13_imul_dtype (h r : H1) (c : Rat) (k : H1.NumKind) (hr : h.imul c k = 
     within the target's range; when accepted only the dtype changes, when refused there is no new
     state at all (validation comes before conversion). -/
 theorem C13_set (h : H1) (d : DType) :
-    (H1.setDTypeOk h d = true → h.setDType d = .ok { h with dtype := d }) ∧
+    (H1.setDTypeOk h d = true → ∃ r, h.setDType d = .ok r ∧ r.dtype = d ∧ r.freq = h.freq ∧ r.err2 = h.err2 ∧
+      r.binning = h.binning ∧ r.stats = h.stats) ∧
     (H1.setDTypeOk h d = false → ∃ e, h.setDType d = .error e) := by
   unfold H1.setDType
   constructor
-  · intro hok; simp [hok, pure, Except.pure]
+  · intro hok
+    refine ⟨{ h with dtype := d, under := H1.truncN d h.under, over := H1.truncN d h.over,
+                     inner := H1.truncN d h.inner }, ?_, rfl, rfl, rfl, rfl, rfl⟩
+    simp [hok, pure, Except.pure]
   · intro hno; simp [hno, throw, throwThe, MonadExceptOf.throw]
 
 /-- a float histogram holding a non-integral content or squared error cannot become integral -/
